@@ -347,7 +347,64 @@ def r11_lookup_key_ignores_lifetime_spelling(ctx):
             ctx.ob('C02.R11', ob.key, ob.ok, ob.loc, ob.detail, ob.nontrivial)
 
 
+def r12_definition_sites_are_recorded(ctx):
+    ctx.rule('C02.R12', 'P1 must-pass-through on a flag: `bp.import(from![crate::a::b])` is accepted only if some module of the crate is DEFINED at that path '
+             '(`ImportIndexEntry::defined_at`). The index is filled by the closure of `rustdoc_processor::indexing::index_local_types` that records '
+             'one path per visit of an item; a module can be reached through a re-export before its definition is walked. Whether the entry already '
+             'exists or not, a visit that IS the definition records it: on every path of that closure from the computation of the `is_definition` '
+             'flag to its return, the flag is read (handed to `ImportIndexEntry::new`, or tested before `defined_at` is assigned). An "entry '
+             'exists: just add the path" arm that never looks at the flag leaves `defined_at` empty for a module first met through `pub use`, and '
+             'a valid import is rejected as an unknown module path.')
+    cands = []
+    for b in ctx.fb.bodies('rustdoc_processor'):
+        if b.is_promoted or not b.nroot.endswith('indexing::index_local_types'):
+            continue
+        for bb, t in b.calls():
+            if strip_generics(callee(t) or '').endswith('import_index::ImportIndexEntry::new') and len(t['args']) >= 3:
+                cands.append((b, bb, t))
+    if not ctx.need('C02.R12', 'construction of an ImportIndexEntry in rustdoc_processor::indexing::index_local_types', cands):
+        return
+    n_flag = 0
+    for b, bb, t in cands:
+        defs = Defs(b)
+        q = op_place(t['args'][2])
+        if q is None:
+            continue        # a literal `true` / `false`: nothing to consult
+        n_flag += 1
+        # the flag: follow plain copies back to the local that holds `is_definition`
+        flag = q['l'] if q is not None else None
+        for _ in range(6):
+            ds = defs.full.get(flag, [])
+            if len(ds) == 1 and 'rv' in ds[0][2] and ds[0][2]['rv']['k'] == 'use' and op_place(ds[0][2]['rv']['op']) is not None and not op_place(ds[0][2]['rv']['op']).get('p'):
+                flag = op_place(ds[0][2]['rv']['op'])['l']
+            else:
+                break
+        fdefs = defs.full.get(flag, [])
+        if flag is None or not fdefs or b.locals[flag] != 'bool':
+            ctx.ob('C02.R12', 'definition-flag-consulted|%s' % b.nid.split('::')[-1], False, b.loc(bb, t), 'the `is_definition` argument of ImportIndexEntry::new cannot be followed to a flag')
+            continue
+        def_bb = fdefs[0][0]
+        readers = set()
+        for xb, blk in enumerate(b.blocks):
+            for st in blk['st']:
+                if 'rv' not in st or st.get('lhs') == {'l': flag}:
+                    continue
+                from ..flow import rv_read_locals
+                if flag in rv_read_locals(st['rv']):
+                    readers.add(xb)
+            tm = blk['term']
+            if tm and tm['k'] == 'switch' and op_place(tm['d']) is not None and op_place(tm['d'])['l'] == flag:
+                readers.add(xb)
+        readers.discard(def_bb) if not any(st.get('lhs') != {'l': flag} and 'rv' in st and flag in __import__('pvx.flow', fromlist=['rv_read_locals']).rv_read_locals(st['rv']) for st in b.blocks[def_bb]['st']) else None
+        rets = set(b.return_blocks())
+        free = b.reachable(b.succ(def_bb), avoid=readers) & rets
+        ctx.ob('C02.R12', 'definition-flag-consulted|%s' % b.nid.split('::')[-1], not free, b.loc(sorted(free)[0]) if free else b.loc(bb, t),
+               'every path from the computation of `is_definition` to the return reads the flag (%d reading block(s)): %s' % (len(readers), not free))
+    ctx.floor('C02.R12', 'ImportIndexEntry constructions governed by an is_definition flag', n_flag, 1)
+
+
 def check(ctx):
+    r12_definition_sites_are_recorded(ctx)
     r1_exemptions_first(ctx)
     r2_control_flow_test(ctx)
     r3_scope_ancestry(ctx)
